@@ -47,6 +47,7 @@ def run(ctx):
     ctx.rule("C08.5", "Context: limit = len == capacity, duplicate = contains, stack private to context.rs, capacity = RECURSION_LIMIT (<= 64)")
     ctx.rule("C08.6", "candidate loop: match_count only from the candidates in use; work-list re-seeded only from a validated better delegation or once from the deferred list")
     ctx.rule("C08.7", "every loop of the resolver has a progress step whose removal leaves no cycle (iterator next / work-list pop / await)")
+    ctx.rule("C08.8", "every panic-capable site reachable from resolve() is discharged (guards on the indexed container, justified externals, mutex never poisoned)")
     ctx.rule("C08.9", "dns_resolver builds ResourceRecords only in cache::to_rrs: everything returned was supplied by upstream or local data")
     ctx.decline("actual elapsed time and scheduler behaviour")
 
@@ -268,6 +269,21 @@ def run(ctx):
                             and A.same(fct[2][0], e[2][0]) and A.same(fct[2][1], e[2][1]))
         ctx.check(ok, "C08.7", "follow_cnames:fresh-target", "seen.insert(target) only when !seen.contains(target) (else return None)",
                   "the visited set is not checked before following a CNAME", fc.loc(b))
+
+    # ---------------------------------------------------------------- C08.8
+    from .. import panics as P
+    from . import panicjust
+    state = {}
+    fns = [f for f in P.reach_set(prog, ["dns_resolver::resolve"]) if not f.derived]
+    ctx.floor("C08.8", "functions reachable from resolve()", len(fns), 150)
+    d = P.Discharger(ctx, "C08.8", prog, panicjust.make(prog, state))
+    before = len(ctx.violations)
+    counts = d.run(fns)
+    bad_fns = {v["site"].split(":")[0] for v in ctx.violations[before:]}
+    und = [f.key for f in fns if A.short(f.key) in bad_fns]
+    panicjust.settle_mutex(ctx, "C08.8", prog, state, und)
+    ctx.floor("C08.8", "indexing sites examined in the resolver", counts.get("call:index", 0) + counts.get("assert:BoundsCheck", 0), 30)
+    ctx.note("C08.8 site kinds: %s" % counts)
 
     # ---------------------------------------------------------------- C08.9
     RR = "dns_types::protocol::types::ResourceRecord"
